@@ -10,7 +10,7 @@ PROPERTY = "C10"
 RULE = ("Generated structures (all four term kinds, with/without tables and extra columns, unique atom ids). For each "
         "structure with N<=Nmax EVERY non-empty subset of atom indices is deleted from a fresh copy, listed sorted, "
         "reversed and shuffled (list and numpy array); pop() and pop(i) for every i; random subsets for N up to 40; "
-        "deletions from structures of 1e5..3e5 atoms whose terms sit on the last atoms (large index values), and of 12-45 scattered atoms at once from structures of thousands. "
+        "histories of up to six deletions and pops on ONE object, each step compared with the model of the state it was made on; deletions from structures of 1e5..3e5 atoms whose terms sit on the last atoms (large index values), and of 12-45 scattered atoms at once from structures of thousands. "
         "After each deletion the real object is resolved (type ids -> text) and compared with the reference model's "
         "delete. A case (= one structure) is non-trivial if some deletion removed a term and some term survived a "
         "deletion; distinct by generator seed.")
@@ -141,6 +141,42 @@ def run_case(case, ctx):
             any_removed |= r > 0
             any_survived |= s > 0
             st.count("random_subsets")
+    # a history on ONE object: deletions and pops one after the other, each judged against the model of the state it was made on
+    if n >= 2:
+        for h in range(2 if case["kind"] == "exhaustive" else 4):
+            b = clone(a)
+            m = m0
+            step = 0
+            while len(b) > 0 and step < 6:
+                nb = len(b)
+                cur = m.ids()
+                if step % 2 == 0 and h % 2 == 0:
+                    i = int(rng.integers(nb)) if step else 0
+                    sub, what = [i], "pop"
+                else:
+                    k = int(rng.integers(1, max(2, nb // 2 + 1)))
+                    sub, what = sorted(int(x) for x in rng.choice(nb, size=min(k, nb), replace=False)), "del"
+                try:
+                    if what == "pop":
+                        b.pop(sub[0])
+                    else:
+                        del b[sub]
+                except Exception as e:
+                    ctx.fail("step %d of a deletion history on one object: %s(%s) raised %s: %s" % (step, what, sub, type(e).__name__, e), key="history.raised")
+                    break
+                before_terms = sum(len(m.terms[k]) for k in AM.KNAMES)
+                m = AM.delete(m, [cur[i] for i in sub])
+                bad = AM.compare(AM.resolve(b), m)
+                st.count("deletions_checked")
+                st.count("deletions_in_a_history_on_one_object" if step else "first_deletions_of_a_history")
+                if step and before_terms:
+                    st.count("later_deletions_from_an_object_that_still_had_terms")
+                for f, msg in bad[:3]:
+                    ctx.fail("step %d of a deletion history on one object, %s %s: %s" % (step, what, sub, msg), key="history." + f,
+                             witness={"op": what, "field": f, "structure": atomsgen.describe(a)})
+                if bad:
+                    break
+                step += 1
     nterms = sum(len(m0.terms[k]) for k in AM.KNAMES)
     st.count("structures")
     if nterms:
@@ -166,6 +202,8 @@ def requirements(stats, tier):
         need.append("deletions from structures with more than 1e5 atoms: %d" % stats.get("deletions_from_structures_with_more_than_1e5_atoms"))
     if stats.get("deletions_of_a_dozen_or_more_scattered_atoms") < (30 if tier == "quick" else 1500):
         need.append("deletions of a dozen or more scattered atoms from a structure of thousands: %d" % stats.get("deletions_of_a_dozen_or_more_scattered_atoms"))
+    if stats.get("later_deletions_from_an_object_that_still_had_terms") < (100 if tier == "quick" else 10000):
+        need.append("second and later deletions on one object that still had terms: %d" % stats.get("later_deletions_from_an_object_that_still_had_terms"))
     if stats.get("pops_checked") < 20:
         need.append("pop not observed")
     if stats.get("contract_eval.C10.delitem_post") < stats.get("deletions_checked"):
